@@ -62,6 +62,12 @@ claim("C19",
       "and every attribute the iterator yields reaches the new resource also on a conflict.",
       _TB + "Not decided: the merged list as a full right-biased union and the algebraic laws (need a recursive merge specification), environment parsing, detectors.",
       "DESIGN.md 4 C19")
+claim("C17",
+      "Proof for every attribute list and limit: dedup in place over the caller's array (keys unique, duplicates counted, no key lost), head, the index map of existing attributes, addAttrs/SetAttributes/AddAttributes: "
+      "every store into the record's inline array or back slice is of a value that went through applyAttrLimits (abstract predicate established only by the limiter) - whether the key is new or overwrites an existing one - "
+      "the count limit holds afterwards, dropped counters never decrease, type invariant 0 <= nFront <= 5; truncate as in C04. Known finding (class-split): a count limit of 0 keeps everything.",
+      _TB + "applyValueLimits (recursion over log.Value, other module) is a trusted contract; sync.Pool index maps are assumed empty and exclusively owned. Not decided: see evidence.",
+      "DESIGN.md 4 C17")
 _todo = "check not built yet in this session (engine exists; contracts for this property's functions still to be written)"
-for _p in ["C01","C02","C06","C07","C08","C11","C12","C15","C16","C17"]:
+for _p in ["C01","C02","C06","C07","C08","C11","C12","C15","C16"]:
     na(_p, _todo)
